@@ -49,7 +49,73 @@ let asg_of_sexp x =
   fun z -> Stdlib.List.mem (int_of_z z) tv
 let show_optb = function None -> "none" | Some b -> show_bool b
 
+(* ---- character level: a text travels as the hex of its bytes (atom "x<hex>", "x" = empty) *)
+let hex_of_chars (l : char list) : string =
+  let b = Buffer.create 64 in
+  Buffer.add_char b 'x';
+  Stdlib.List.iter (fun c -> Buffer.add_string b (Printf.sprintf "%02x" (Char.code c))) l;
+  Buffer.contents b
+let chars_of_hex (s : string) : char list =
+  let n = Stdlib.String.length s in
+  if n = 0 || Stdlib.String.get s 0 <> 'x' || (n - 1) mod 2 <> 0 then failwith "hex" else
+  Stdlib.List.init ((n - 1) / 2) (fun i -> Char.chr (int_of_string ("0x" ^ Stdlib.String.sub s (1 + 2 * i) 2)))
+let text_of_sexp x = chars_of_hex (str_of_sexp x)
+let show_text = hex_of_chars
+let fvc_of c fvc = match opt_of_sexp z_of_sexp fvc with Some n -> n | None -> Dimacs.cnf_num_vars c
+let set_of = function
+  | L [A "len"; n] -> Dimacs.support_set (z_of_sexp n)
+  | L [A "vars"; vs] -> zlist_of_sexp vs
+  | _ -> []
+
 let () =
+  register "c_str_z" (function [z] -> show_text (Chars.string_of_Z (z_of_sexp z)) | _ -> "!args");
+  register "c_int" (function [t] -> show_opt show_z (Chars.coq_Z_of_string (text_of_sexp t)) | _ -> "!args");
+  register "c_split" (function [t] -> show_list show_text (Chars.split_ws (text_of_sexp t)) | _ -> "!args");
+  register "c_strip" (function [t] -> show_text (Chars.strip (text_of_sexp t)) | _ -> "!args");
+  register "c_lines" (function [t] -> show_list show_text (Chars.lines (text_of_sexp t)) | _ -> "!args");
+  register "c_lex" (function [t] -> show_file (TextChars.lex_file (text_of_sexp t)) | _ -> "!args");
+  register "c_render" (function [f] -> show_text (TextChars.render_file (file_of_sexp f)) | _ -> "!args");
+  register "c_str" (function [cls] -> show_text (TextChars.str_text (cnf_of_sexp cls)) | _ -> "!args");
+  register "c_dimacs" (function [cls; fvc] ->
+    let c = cnf_of_sexp cls in show_text (TextChars.dimacs_text (fvc_of c fvc) c) | _ -> "!args");
+  register "c_unigen" (function [cls; fvc; ss] ->
+    let c = cnf_of_sexp cls in show_text (TextChars.unigen_text (fvc_of c fvc) (set_of ss) c) | _ -> "!args");
+  register "c_save_cnf" (function [cls; sup] ->
+    show_text (TextChars.save_cnf_text (cnf_of_sexp cls) (opt_of_sexp z_of_sexp sup)) | _ -> "!args");
+  register "c_combine_save" (function [init; fresh; sup; rs] ->
+    show_opt show_text (TextChars.combine_save_text (cnf_of_sexp init) (z_of_sexp fresh) (z_of_sexp sup) (reqs_of_sexp rs))
+    | _ -> "!args");
+  register "c_parse_cms" (function [t] ->
+    (match TextChars.parse_cms_text (text_of_sexp t) with
+     | None -> "none"
+     | Some (nv, cls) -> show_z nv ^ " " ^ show_cnf cls) | _ -> "!args");
+  register "c_parse_unigen" (function [t] ->
+    (match TextChars.parse_unigen_text (text_of_sexp t) with
+     | None -> "none"
+     | Some ((cls, ss), nv) -> show_cnf cls ^ " " ^ show_zlist ss ^ " " ^ show_z nv) | _ -> "!args");
+  register "c_sampler_input" (function [b; t] ->
+    (match TextChars.sampler_input_text (fun _ -> bool_of_sexp b) (text_of_sexp t) with
+     | None -> "none"
+     | Some None -> "empty"
+     | Some (Some (cls, ss)) -> show_cnf cls ^ " " ^ show_zlist ss) | _ -> "!args");
+  register "c_update_file" (function [t; sol] ->
+    show_opt show_text (TextChars.update_file_text (text_of_sexp t) (zlist_of_sexp sol)) | _ -> "!args");
+  register "c_cms_output" (function [bs] -> show_text (TextChars.cms_output_text (bools_of_sexp bs)) | _ -> "!args");
+  register "c_parse_v" (function [t] -> show_opt show_zlist (TextChars.parse_v_text (text_of_sexp t)) | _ -> "!args");
+  register "c_solve_result" (function [t; sup] ->
+    show_opt show_zlist (TextChars.solve_result_text (text_of_sexp t) (z_of_sexp sup)) | _ -> "!args");
+  register "c_unigen_format" (function [ss] ->
+    show_text (TextChars.unigen_format_text (list_of_sexp zlist_of_sexp ss)) | _ -> "!args");
+  register "c_parse_sampler" (function [t] ->
+    show_opt (show_list (fun (a, fq) -> "(" ^ show_zlist a ^ " " ^ show_z fq ^ ")"))
+      (TextChars.parse_sampler_text (text_of_sexp t)) | _ -> "!args");
+  register "c_opb" (function [cls; rs] ->
+    show_text (TextChars.opb_file_text (cnf_of_sexp cls) (reqs_of_sexp rs)) | _ -> "!args");
+  register "c_opb_lines" (function [cls] -> show_text (TextChars.opb_text (cnf_of_sexp cls)) | _ -> "!args");
+  register "c_ilp_update" (function [t; sol] ->
+    show_text (TextChars.ilp_update_text (text_of_sexp t) (zlist_of_sexp sol)) | _ -> "!args");
+  register "c_pb_file_sat" (function [asg; t] ->
+    show_optb (TextChars.pb_file_sat_text (asg_of_sexp asg) (text_of_sexp t)) | _ -> "!args");
   register "str" (function [cls] -> show_file (Dimacs.str_lines (cnf_of_sexp cls)) | _ -> "!args");
   register "numvars" (function [cls] -> show_z (Dimacs.cnf_num_vars (cnf_of_sexp cls)) | _ -> "!args");
   register "dimacs" (function [cls; fvc] ->
